@@ -353,6 +353,7 @@ func TestC31(t *testing.T) {
 			return
 		}
 		r.Class("in-domain:" + c.Family)
+		r.Sample("in-domain text ("+c.Family+")", map[string]any{"case": c.ID, "text": witnessText(text)})
 		for _, p := range presets {
 			r.Eval(p.Name + "\x00" + text)
 			wit := func(extra map[string]any) map[string]any {
